@@ -341,6 +341,13 @@ def mInit (k : Kind) : MPos :=
 def walkRoot (flt : Bool) (r : Node) : List Node := travL (mStep flt) (mInit r.kind) r.kids
 /-- MODEL of `r.walk(all, self_=False, scope=True, back=True)` -/
 def walkRootB (flt : Bool) (r : Node) : List Node := travLB (mStep flt) (mInit r.kind) r.kids
+/-- MODEL of `r.walk(all, scope=True, asts=<all children of r>)`: the scope context is built without `create` (`is_def`
+false, no `scope_args`, no `scope_first_iter`): every given node is an ordinary stack entry, nothing of `r` is excluded,
+nested scopes are still not entered -/
+def walkAsts (flt : Bool) (r : Node) : List Node := travL (mStep flt) .loop r.kids
+/-- SPEC of the same: everything below `r` that belongs to the scope of `r` or to the scope `r` is defined in -/
+def ownedAsts (r : Node) : List Node := travL sStep ⟨.norm, true, true, true, true⟩ r.kids
+
 /-- MODEL of the forward walk during which the consumer replaced nodes (run on the final tree, see `travO`) -/
 def walkRootO (old : Nat → Kind → Kind) (flt : Bool) (r : Node) : List Node :=
   travLO old (mStep flt) (mInit r.kind) r.kids
@@ -419,6 +426,9 @@ end
 meets `ok` in the states the spec table and the model table reach it in (the states do not depend on the `all` filter) -/
 def goodRoot (r : Node) : Bool :=
   goodGL sStep (mStep false) ok (sInit true r.kind) (mInit r.kind) r.kids
+
+/-- hypothesis of `scopeWalk_asts` -/
+def goodAsts (r : Node) : Bool := goodGL sStep (mStep false) ok ⟨.norm, true, true, true, true⟩ .loop r.kids
 
 /-! ### symbols -/
 
